@@ -239,32 +239,26 @@ let run (fn : string) (bs : coq_N list) (arg : int) : string * string =
        (match C16ConfRecModel.avc_decode_dec_conf_rec [] with
         | Ok (r, _) -> show1 slice_string (c16_parse_slice (sps_lookup []) (pps_lookup []) [])
         | Err -> ("err", "") | Panic -> ("panic", "") | OutOfFuel -> ("hang", "")))
-  (* ---- HEVC parsers (C16HevcParseModel over C15HevcModel).  "skip" = the model is undefined on this input
-     (a PPS selecting the multilayer / 3D extension): the case is outside the correspondence *)
+  (* ---- HEVC parsers (C16HevcParseModel over C15HevcModel; every PPS is inside the model: the multilayer / 3D
+     extension bodies are C16's own skeletons).  OutOfFuel anywhere = "hang" = a mismatch *)
   | "hevc.ParseSPSNALUnit" ->
     show1 (fun (s : C15HevcModel.hsps) ->
         hexs [s.h_sps_id; s.h_width; s.h_height; s.h_chroma; s.h_num_st_rps; s.h_num_lt])
       (C16HevcParseModel.c16_hparse_sps bs)
   | "hevc.ParsePPSNALUnit" ->
-    (match C16HevcParseModel.c16_hparse_pps (C16HevcParseModel.hsps_has !ctx_hsps) bs with
-     | OutOfFuel -> ("skip", "")
-     | r -> show1 hpps_string r)
+    show1 hpps_string (C16HevcParseModel.c16_hparse_pps (C16HevcParseModel.hsps_has !ctx_hsps) bs)
   | "hevc.ParseSliceHeader#m" ->
     show1 hslice_string (C16HevcParseModel.c16_hparse_slice (C16HevcParseModel.hsps_lookup !ctx_hsps)
                            (C16HevcParseModel.hpps_lookup !ctx_hpps) bs)
   | "hevc.ParsePSAndSlice#m" ->
     let (a, b, rest) = split3 bs in
-    (match C16HevcParseModel.hevc_ps_and_slice !ctx_hsps !ctx_hpps a b rest with
-     | OutOfFuel -> ("skip", "")
-     | r -> show1 hslice_string r)
+    show1 hslice_string (C16HevcParseModel.hevc_ps_and_slice !ctx_hsps !ctx_hpps a b rest)
   | "hevc.ParseSPSAndSEI" ->
     let (a, rest) = cut1 bs in
     sei_result (C16HevcPipeModel.hevc_sps_and_sei a rest)
   | "hevc.DecConfRecAndSlice" ->
     let (recb, rest) = cut2 bs in
-    (match C16HevcPipeModel.hevc_confrec_and_slice recb rest with
-     | OutOfFuel -> ("skip", "")
-     | r -> show1 hslice_string r)
+    show1 hslice_string (C16HevcPipeModel.hevc_confrec_and_slice recb rest)
   | "avc.GetSliceTypeFromNALU" -> show1 hex_of_n (get_slice_type bs)
   | "avc.ParsePSAndSlice" ->
     let (a, b, rest) = split3 bs in
@@ -309,8 +303,7 @@ let () =
       match split_on '\t' line with
       | ["W"; id; fn; inhex; arg; cls; value] ->
         let (mc, mv) = run fn (bytes_of_hex inhex) (int_of_string arg) in
-        if mc = "skip" then Printf.printf "OK %s outside-model\n" id
-        else if mc = cls && (cls <> "ok" || mv = value) then Printf.printf "OK %s\n" id
+        if mc = cls && (cls <> "ok" || mv = value) then Printf.printf "OK %s\n" id
         else Printf.printf "MISMATCH %s %s model=%s/%s\n" id fn mc mv
       | ["CTX"; kind; hexes] -> set_ctx kind hexes
       | _ -> Printf.printf "BADLINE %s\n" line)
